@@ -22,6 +22,7 @@ def step (s : Unit) (op ans : List String) : Unit × String :=
     | none =>
       match ans.head?, natField ans "rf" with
       | some "ok", some _ => (s, "ok")
+      | some "skip", _ => (s, if ans = ["skip"] then "ok" else "bad answer")
       | some "fail", some rfn => (s, if rfn > 0 then "ok" else "bad failure reported although no allocation was refused")
       | _, _ => (s, "bad unparsable answer")
 
